@@ -12,7 +12,8 @@ TrStyles == {"scope", "native"}
 TrRelax == {}
 AllDevs == <<"KeepaliveCountsAll", "AbandonAssignedFresh", "TimeoutAfterAssign", "CancelAtGateLeavesNew",
              "EstabFailLeaksStream", "CancelInEstabLeaksStream", "NativeCancelInShield", "ReconnectOnFailed",
-             "WaiterCancelFlagsFailed", "ActivateEvicted", "InitRetryOnClosed", "MuxCancelCorrupts", "MuxIdleWhileUsersWait">>
+             "WaiterCancelFlagsFailed", "ActivateEvicted", "InitRetryOnClosed", "MuxCancelCorrupts", "MuxIdleWhileUsersWait",
+             "SurplusCountsStale">>
 DevAll == {AllDevs[i] : i \in DOMAIN AllDevs}
 ChoiceIntended == <<{}>>
 \* diagnosis round 1: each deviation alone, then all together
